@@ -22,5 +22,17 @@ package protobuf
 //@ func FromResource
 //@   trusted
 //@   ensures err == nil ==> result0 != nil
+// C18 / C11: the metadata of a resource is mapped field by field onto the wire form: scalar fields as
+// they are, version and phase in their text forms, both timestamps as timestamps (never left out - the
+// decoder reads an absent timestamp as 1970-01-01, which is not the zero time).
+// (assumed: the phase of a resource is one of the two phases)
 //@ func (*Resource).Marshal
-//@   trusted
+//@   props C18 C11
+//@   requires [resource] r != nil
+//@   assume [phase-is-a-phase] r.md.phase == resource.PhaseRunning || r.md.phase == resource.PhaseTearingDown
+//@   ensures [marshalled] result1 == nil && result0 != nil && result0.Metadata != nil && result0.Spec != nil
+//@   ensures [scalar-fields-as-they-are] result0.Metadata.Namespace == r.md.ns && result0.Metadata.Type == r.md.typ && result0.Metadata.Id == r.md.id && result0.Metadata.Owner == r.md.owner
+//@   ensures [timestamps-always-present] result0.Metadata.Created != nil && timeOf(result0.Metadata.Created) == r.md.created &&
+//@     result0.Metadata.Updated != nil && timeOf(result0.Metadata.Updated) == r.md.updated
+//@   ensures [version-as-text] r.md.ver.uint64 != nil ==> result0.Metadata.Version == decimalOf(*r.md.ver.uint64)
+//@   ensures [phase-as-text] (r.md.phase == resource.PhaseRunning ==> result0.Metadata.Phase == "running") && (r.md.phase == resource.PhaseTearingDown ==> result0.Metadata.Phase == "tearingDown")
